@@ -315,6 +315,10 @@ func modelToWitness(cfg *PropConfig, hr *HarnessResult, o *Obligation, model map
 	for _, iv := range hr.Inputs {
 		lit, ok := model["in_"+iv.Name]
 		var v uint64
+		if !ok && iv.t != nil && iv.t.kind == 'v' && (iv.t.lo > 0 || iv.t.hi < 0) {
+			// the query does not mention this input: any value of its declared range will do, 0 is not one
+			v = uint64(iv.t.lo)
+		}
 		if ok {
 			var parsed bool
 			if v, parsed = modelValue(lit); !parsed {
